@@ -601,25 +601,30 @@ class DLC(utils.EventEmitter):
             f'[{self.dlci}] {len(data)} bytes, '
             f'rx_credits={self.rx_credits}: {data.hex()}'
         )
-        if data:
-            if self._sink:
-                self._sink(data)  # pylint: disable=not-callable
-            else:
-                self._enqueued_rx_packets.append(data)
-            if (
-                self._enqueued_rx_packets.maxlen
-                and len(self._enqueued_rx_packets) >= self._enqueued_rx_packets.maxlen
-            ):
-                logger.warning(f'DLC [{self.dlci}] received packet queue is full')
+        try:
+            if data:
+                # Update the credits first: the peer has spent one for this frame,
+                # even if the sink raises.
+                if self.rx_credits > 0:
+                    self.rx_credits -= 1
+                else:
+                    logger.warning(
+                        color('!!! received frame with no rx credits', 'red')
+                    )
 
-            # Update the credits
-            if self.rx_credits > 0:
-                self.rx_credits -= 1
-            else:
-                logger.warning(color('!!! received frame with no rx credits', 'red'))
-
-        # Check if there's anything to send (including credits)
-        self.process_tx()
+                if self._sink:
+                    self._sink(data)  # pylint: disable=not-callable
+                else:
+                    self._enqueued_rx_packets.append(data)
+                if (
+                    self._enqueued_rx_packets.maxlen
+                    and len(self._enqueued_rx_packets)
+                    >= self._enqueued_rx_packets.maxlen
+                ):
+                    logger.warning(f'DLC [{self.dlci}] received packet queue is full')
+        finally:
+            # Check if there's anything to send (including credits)
+            self.process_tx()
 
     def on_ui_frame(self, frame: RFCOMM_Frame) -> None:
         pass
